@@ -23,7 +23,7 @@ def projects(rnd, n):
     in several files; labels sharing an address; anonymous scopes inside imported files"""
     out = []
     for i in range(n):
-        kind = i % 9
+        kind = i % 11
         files = {}
         if kind == 0:      # the same undefined name used several times, in several files
             files["main.asm"] = '.import * as ma from "a.asm"\n.import * as mb from "b.asm"\nlda nosuch\nsta nosuch\n{ ldx nosuch }\njmp other\n'
@@ -49,6 +49,14 @@ def projects(rnd, n):
             files["gfx/util.asm"] = "gu1: ldx #2\nrts\n"
             files["snd/util.asm"] = "su1: ldy #3\nrts\n"
             files["lib/main.asm"] = "lm1: nop\nrts\n"
+        elif kind == 9:    # a scope with symbols of its own that only an early pass defines (Prune.tla): the clean-up of the next pass meets
+            # the scope and its symbols in hash order; the outer symbol of the same name must be found afterwards
+            inner = "".join("x%d: nop\n" % k for k in range(1 + (i // 11) % 3))
+            files["main.asm"] = "foo: nop\nlda fwd\nend:\ns: {\n    .if end < $2003 {\n        foo: { %s }\n    }\n    jmp foo\n}\nfwd: nop\n" % inner
+        elif kind == 10:   # two listings that would get the same file name (lib/main.asm and lib_main.asm next to main.asm)
+            files["main.asm"] = 'lda #1\n.import * as a from "lib/main.asm"\n.import * as b from "lib_main.asm"\nrts\n'
+            files["lib/main.asm"] = "am: ldx #%d\nrts\n" % (i % 200)
+            files["lib_main.asm"] = "bm: ldy #3\nrts\n"
         elif kind == 5:    # several different undefined names and bad config keys
             files["main.asm"] = '.define segment { name = "s" start = $1000 bogus = 1 other = 2 third = 3 }\nlda u1\nlda u2\nlda u3\nlda u1\n'
         else:              # generated programs (valid or not), with listing and symbols
@@ -87,8 +95,13 @@ def main(tier):
     r2 = V.tlc(os.path.join(SPEC, "Repro.tla"), cfg=os.path.join(SPEC, "MC_Repro_pinned.cfg"), workers=2, timeout=600, tag="C10-pinned")
     if not r2.invariant_violated:
         raise V.ToolError("binding demonstration failed: the pinned reading (name-only sort key, hash-ordered imports) should not be reproducible")
+    r3 = V.tlc_must_pass(os.path.join(SPEC, "Prune.tla"), cfg=os.path.join(SPEC, "MC_Prune.cfg"), workers=4, timeout=600, tag="C10-prune")
+    rep.add_tlc(r3)
+    r4 = V.tlc(os.path.join(SPEC, "Prune.tla"), cfg=os.path.join(SPEC, "MC_Prune_pinned.cfg"), workers=2, timeout=600, tag="C10-prune-pinned")
+    if not r4.invariant_violated:
+        raise V.ToolError("binding demonstration failed: the one-sweep clean-up in listing order should not be reproducible")
     rnd = V.rng("C10")
-    nproj, nruns = (48, 10) if tier == "quick" else (240, 32)
+    nproj, nruns = (55, 10) if tier == "quick" else (242, 32)
     root = V.fresh_dir("C10-proj")
     projs = projects(rnd, nproj)
     dirs = []
